@@ -1,6 +1,7 @@
 """C15 — Expression type inference is sound and symmetric."""
 import hashlib
 import random
+import sys
 import warnings
 from fractions import Fraction
 
@@ -15,17 +16,30 @@ import pyden
 import sexp
 import upx
 
+# powers of huge bounds ((10**400)**12) have more than the 4300 digits CPython converts to/from str by default; the
+# bounds are compared as exact decimal strings, so the limit is lifted for this process (harness only)
+if hasattr(sys, "set_int_max_str_digits"):
+    sys.set_int_max_str_digits(0)
+
 ID = "C15"
 GEN = []
 CORR_NAME = "inferred-type-or-reject"
-RULE = ("four streams, every expression built node by node in a FRESH environment (first-time verdict): "
+EXTRA_PROPS = ["UPVerif.Props.C15Repeat"]
+RULE = ("five streams, every expression built node by node in a FRESH environment (first-time verdict): "
         "(1) arithmetic over + - * / with <= 4 (quick) / 6 (thorough) operator nodes per operand over unbounded, half-bounded, "
         "bounded and singleton int/real fluents and parameters and constants of any magnitude (10**400, n/(10**20+1)), "
         "divisors mostly non-zero constants, plus ill-sorted operands; (2) Equals over ALL ordered pairs of 20 operand "
         "kinds (bool/int/real constants and fluents, objects/parameters/variables/fluents of related, sibling and "
         "unrelated user types, timing); (3) Boolean expressions of the shared generator (quantifiers, fluent and "
         "interpreted-function applications) with ill-typed mutations (wrong sort, super-type argument, arity), "
-        "trajectory operators, Dot, user-typed applications with sub-typed arguments; (4) is_compatible on random pairs of types. Non-trivial = an accepted expression "
+        "trajectory operators, Dot, user-typed applications with sub-typed arguments; (4) is_compatible on random pairs of types; "
+        "(5) repeated-operand shapes: flat n-ary Plus/Times of 2-5 IDENTICAL operands swept over every non-constant leaf "
+        "(int/real, bounded, one-sided, unbounded, negative-only, mixed-sign with either side dominating, singleton) and drawn "
+        "over leaves, constants and small expressions: alone, with one different operand in any position, two repeated operands "
+        "interleaved, nested flat and as the infix operator nests them, x - x, x / x, x op x' for a twin leaf x' of the same "
+        "declared type, Plus(x, Minus(0, x)), a constant-0 factor, two powers of one operand under - / * +, a third of them "
+        "enclosed in a further operator; the ordinary streams (1) and (3) also copy an operand over others in 12% / 30% of "
+        "their n-ary nodes (tags rep-* of the measured distribution). Non-trivial = an accepted expression "
         "whose top node is arithmetic with a non-constant operand (interval arithmetic exercised), or any Equals, "
         "or an application with arguments.")
 ASSUMPTIONS = [
@@ -63,6 +77,10 @@ NUM_FL = [
     ["zhi", ["real", "_", "5/2"], []], ["zneg", ["real", "-9/4", "-1/7"], []], ["zc", ["real", "1/3", "1/3"], []],
     ["zbig", ["real", "-1/" + str(10 ** 20 + 1), B400 + "/7"], []],
     ["xq", ["int", "-5", "5"], [U("T")]], ["zq", ["real", "0", "1/2"], [U("S")]],
+    # (appended: the indices used below stay) mixed-sign ranges whose negative side dominates / is dominated (an even
+    # power is largest at the LOWER corner, an odd power negative), a real bounded only from above by a negative number
+    ["xm", ["int", "-7", "2"], []], ["xm2", ["int", "-2", "3"], []], ["zm", ["real", "-9/4", "1/2"], []],
+    ["zh0", ["real", "_", "-1/3"], []],
 ]
 NUM_PAR = [["p", "pi", ["int", "-5", "-1"]], ["p", "pj", INT], ["p", "pr", REAL], ["p", "prb", ["real", "1/2", "3"]]]
 SMALL_INT = [0, 0, 1, 1, -1, 2, 3, 5, -4, 7, 12]
@@ -159,20 +177,37 @@ def split(rng, total, parts):
     return out
 
 
+def dup_args(rng, args):
+    """with probability 0.12: one argument of an n-ary node is copied over others (up to 5 identical arguments)"""
+    if rng.random() >= 0.12:
+        return args
+    i = rng.randrange(len(args))
+    js = [j for j in range(len(args)) if j != i and rng.random() < 0.7] or [(i + 1) % len(args)]
+    for j in js:
+        args[j] = args[i]
+    for _ in range(rng.choice([0, 0, 1, 2, 3])):
+        if len(args) < 5:
+            args.insert(rng.randrange(len(args) + 1), args[i])
+    return args
+
+
 def num_expr(rng, budget):
-    """arithmetic expression with at most `budget` operator nodes"""
+    """arithmetic expression with at most `budget` operator nodes (a duplicated operand does not count twice)"""
     if budget <= 0 or rng.random() < 0.12:
         return num_leaf(rng)
     k = rng.random()
     if k < 0.3:
         n = rng.choice([2, 2, 3, 4])
-        return ["plus"] + [num_expr(rng, b) for b in split(rng, budget - 1, n)]
+        return ["plus"] + dup_args(rng, [num_expr(rng, b) for b in split(rng, budget - 1, n)])
     if k < 0.48:
         a, b = split(rng, budget - 1, 2)
+        if rng.random() < 0.08:
+            e = num_expr(rng, max(a, b))
+            return ["minus", e, e]
         return ["minus", num_expr(rng, a), num_expr(rng, b)]
     if k < 0.78:
         n = rng.choice([2, 2, 3])
-        return ["times"] + [num_expr(rng, b) for b in split(rng, budget - 1, n)]
+        return ["times"] + dup_args(rng, [num_expr(rng, b) for b in split(rng, budget - 1, n)])
     j = rng.random()
     if j < 0.6:
         d = c_int(rng) if rng.random() < 0.6 else c_real(rng)
@@ -185,6 +220,191 @@ def num_expr(rng, budget):
         return ["div", num_expr(rng, budget - 1), rng.choice([["i", "0"], ["fl", NUM_FL[6]], ["r", "0"]])]
     a, b = split(rng, budget - 1, 2)
     return ["div", num_expr(rng, a), num_expr(rng, b)]
+
+
+# ---- repeated-operand shapes ---------------------------------------------------------------------
+# TypeChecker.walk_plus/minus/times/div compute the bounds from the TYPES of the arguments alone.  A node whose
+# arguments are syntactically the SAME expression (Times(x, x, x), x - x, x / x, Plus(x, Minus(0, x)), a product with a
+# constant 0) invites value-level special cases ("a power cannot be negative", "x - x is 0") that independent draws of
+# the arguments never reach: these shapes are generated on purpose, flat and nested, alone and mixed with other
+# operands in every position, below other operators and above them.
+
+def leaf_of(rng, ref):
+    args = []
+    for t in ref[2]:
+        o = rng.choice(["t1", "s1", "ss1", "r1"] if t[1] == "T" else ["s1", "ss1"])
+        args.append(["o", o, OBJ_TYPE[o]])
+    return ["fl", ref] + args
+
+
+def var_leaves(rng):
+    """every non-constant numeric leaf of the signature, once"""
+    return [leaf_of(rng, ref) for ref in NUM_FL] + [list(p) for p in NUM_PAR]
+
+
+def twin(a):
+    """another leaf with the SAME declared type (a rule keyed on the type instead of the expression)"""
+    if a[0] == "fl":
+        return ["fl", [a[1][0] + "_2", a[1][1], a[1][2]]] + a[2:]
+    if a[0] == "p":
+        return ["p", a[1] + "_2", a[2]]
+    return None
+
+
+UNITS = [["i", "0"], ["i", "1"], ["i", "-1"], ["i", "2"], ["i", "-3"], ["r", "0"], ["r", "-1/2"], ["r", "1"]]
+ZEROS = [["i", "0"], ["r", "0"], ["fl", NUM_FL[6]]]
+REP_SHAPES = ["pow", "pow", "pow-other", "pow-other", "two-rep", "nested", "infix", "infix", "zero-factor", "self",
+              "twin", "cancel", "pow-pow"]
+SWEEP = [(op, k) for op in ("times", "plus") for k in (2, 3, 4, 5)]
+
+
+def rep_base(rng):
+    r = rng.random()
+    if r < 0.72:
+        return rng.choice(var_leaves(rng))
+    if r < 0.82:
+        return rng.choice([c_int(rng), c_real(rng)])
+    return num_expr(rng, rng.choice([1, 1, 2]))
+
+
+def other_operand(rng, a):
+    r = rng.random()
+    if r < 0.25 and twin(a) is not None:
+        return twin(a)
+    if r < 0.6:
+        return rng.choice(var_leaves(rng))
+    if r < 0.8:
+        return rng.choice(UNITS)
+    return num_expr(rng, 1)
+
+
+def nest(rng, op, args):
+    """group a contiguous run of >= 2 of the (>= 3) arguments into a child of the same operator: (x*x)*x, x*(x*x)"""
+    i = rng.randrange(0, len(args) - 1)
+    j = rng.randrange(i + 2, len(args) + 1)
+    if j - i == len(args):
+        i, j = (i + 1, j) if rng.random() < 0.5 else (i, j - 1)
+    return [op] + args[:i] + [[op] + args[i:j]] + args[j:]
+
+
+def power(rng, a, op=None, k=None):
+    return [op or rng.choice(["times", "times", "plus"])] + [a] * (k or rng.choice([2, 3, 3, 4, 5]))
+
+
+def rep_expr(rng, shape=None, a=None):
+    a = a if a is not None else rep_base(rng)
+    shape = shape or rng.choice(REP_SHAPES)
+    op = rng.choice(["times", "times", "plus"])
+    k = rng.choice([2, 3, 3, 4, 5])
+    if shape == "pow":
+        return [op] + [a] * k
+    if shape == "pow-other":          # one different operand, in any of the k+1 positions
+        args = [a] * k
+        args.insert(rng.randrange(k + 1), other_operand(rng, a))
+        return [op] + args
+    if shape == "two-rep":            # two repeated operands, interleaved
+        args = [a] * k + [other_operand(rng, a)] * rng.choice([1, 2, 3])
+        rng.shuffle(args)
+        return [op] + args
+    if shape == "nested":             # the tree the infix operator builds, and a power of a power
+        args = [a] * max(k, 3)
+        if rng.random() < 0.3:
+            args.insert(rng.randrange(len(args) + 1), other_operand(rng, a))
+        return nest(rng, op, args)
+    if shape == "infix":              # binary nodes as the infix operator builds them: ((x*x)*x)*x, or folded to the right
+        args = [a] * max(k, 3)
+        if rng.random() < 0.3:
+            args.insert(rng.randrange(len(args) + 1), other_operand(rng, a))
+        if rng.random() < 0.3:
+            args.reverse()
+            e = args[0]
+            for b in args[1:]:
+                e = [op, b, e]
+            return e
+        e = args[0]
+        for b in args[1:]:
+            e = [op, e, b]
+        return e
+    if shape == "twin":               # two DIFFERENT leaves of one declared type: x - x', x / x', x * x' * x ...
+        if twin(a) is None:
+            a = rng.choice(var_leaves(rng))
+        if rng.random() < 0.5:
+            return [rng.choice(["minus", "minus", "div"]), a, twin(a)]
+        args = [a] * rng.choice([1, 1, 2, 3]) + [twin(a)] * rng.choice([1, 1, 2])
+        rng.shuffle(args)
+        return [op] + args
+    if shape == "zero-factor":        # 0 * anything (also unbounded) is exactly 0
+        args = [a] * rng.choice([1, 2, 3])
+        if rng.random() < 0.4:
+            args.insert(rng.randrange(len(args) + 1), other_operand(rng, a))
+        args.insert(rng.randrange(len(args) + 1), rng.choice(ZEROS))
+        return ["times"] + args
+    if shape == "self":               # x - x, x / x (also of powers); x - x' with another leaf x' of the same type
+        b = a if rng.random() < 0.7 else power(rng, a)
+        c = twin(a) if (twin(a) is not None and rng.random() < 0.3) else b
+        return [rng.choice(["minus", "div"]), b, c]
+    if shape == "cancel":             # x + (0 - x), (-1 * x) + x, x - (x + y)
+        z = rng.choice([["i", "0"], ["r", "0"]])
+        neg = rng.choice([["minus", z, a], ["times", ["i", "-1"], a], ["times", a, ["i", "-1"]]])
+        if rng.random() < 0.25:
+            return ["minus", a, ["plus", a, other_operand(rng, a)]]
+        args = [a, neg] if rng.random() < 0.5 else [neg, a]
+        if rng.random() < 0.3:
+            args.insert(rng.randrange(3), other_operand(rng, a))
+        return ["plus"] + args
+    # pow-pow: two powers of the same operand under - / * + (x*x*x - x*x, (x*x) / x, (x+x) * (x+x))
+    p, q = power(rng, a), (power(rng, a) if rng.random() < 0.6 else a)
+    if rng.random() < 0.5:
+        p, q = q, p
+    return [rng.choice(["minus", "div", "times", "plus"]), p, q]
+
+
+def enclose(rng, e):
+    """the repeated shape as an operand of another operator (an unsound operand type propagates)"""
+    b = other_operand(rng, e)
+    d = rng.choice([["i", "3"], ["i", "-2"], ["r", "-1/3"], ["i", B400]])
+    return rng.choice([["plus", e, b], ["plus", b, e, b], ["minus", e, b], ["minus", b, e], ["times", e, b],
+                       ["times", b, e], ["div", e, d], ["div", b, e], ["minus", e, e], ["times", e, e],
+                       [rng.choice(["le", "lt", "eq"]), e, b]])
+
+
+def rep_info(e, acc=None):
+    """which repeated-operand shapes occur in an expression (measured distribution / non-triviality)"""
+    acc = acc if acc is not None else set()
+    if not (isinstance(e, list) and e and isinstance(e[0], str)):
+        return acc
+    h = e[0]
+    kids = e[2:] if h in ("fl", "ifun", "dot") else ([e[2]] if h in ("exists", "forall") else e[1:])
+    if h in ("plus", "times") and len(kids) >= 2:
+        keys = [sexp.dumps(k) for k in kids]
+        top = max(keys.count(k) for k in set(keys))
+        if top >= 2:
+            rep = next(k for k in kids if keys.count(sexp.dumps(k)) == top)
+            var = any(x in ("fl", "p") for x in heads(rep, []))
+            allsame = len(set(keys)) == 1
+            acc.add("rep-%s-%s%s" % (h, "all" if allsame else "mixed", "" if var else "-const"))
+            if var:
+                acc.add("rep-varying")
+                if allsame and h == "times" and len(kids) % 2 == 1:
+                    acc.add("rep-odd-power")
+        if h == "times" and any(k in ZEROS for k in kids):
+            acc.add("rep-zero-factor")
+    if h in ("plus", "times") and any(isinstance(k, list) and k and k[0] == h for k in kids):
+        flat = []
+        def fl(x):
+            for y in x[1:]:
+                fl(y) if (isinstance(y, list) and y and y[0] == h) else flat.append(sexp.dumps(y))
+        fl(e)
+        if len(set(flat)) < len(flat):
+            acc.add("rep-nested-" + h)
+    if h in ("minus", "div") and len(kids) == 2 and kids[0] == kids[1] and isinstance(kids[0], list):
+        acc.add("rep-self-" + h)
+        if any(x in ("fl", "p") for x in heads(kids[0], [])):
+            acc.add("rep-varying")
+    for k in kids:
+        if isinstance(k, list):
+            rep_info(k, acc)
+    return acc
 
 
 OPERANDS = {
@@ -254,7 +474,7 @@ def cases(rng, tier):
             e = [rng.choice(["le", "lt", "eq"]), e, num_expr(rng, rng.randint(0, 2))]
         yield typeof(e)
     # (3) Boolean structure, applications, quantifiers, trajectory operators, Dot
-    g = upx.ExprGen(rng, big=True, quantifiers=True, ifuns=True, params=True)
+    g = upx.ExprGen(rng, big=True, quantifiers=True, ifuns=True, params=True, repeats=True)
     for i in range(220 if quick else 5000):
         e = g.boolean(rng.choice([1, 2, 2, 3]))
         r = rng.random()
@@ -276,6 +496,16 @@ def cases(rng, tier):
         yield typeof(rng.choice([["fl", ["at", U("T"), []]], ["fl", ["own", U("T"), [U("S")]], arg],
                                  ["fl", ["own2", U("S2"), [U("T")]], arg], ["o", "ss1", "SS"], ["p", "pt", U("T")],
                                  ["fl", ["ate", U("E"), []]]]))
+    # (5) repeated-operand shapes: a sweep over EVERY non-constant leaf (squares and cubes every run, one more
+    # (operator, multiplicity) drawn in quick, all of them in thorough), then drawn shapes, a third of them enclosed
+    for a in var_leaves(rng):
+        for op, k in ([("times", 2), ("times", 3), rng.choice(SWEEP[2:])] if quick else SWEEP):
+            yield typeof([op] + [a] * k)
+    for i in range(230 if quick else 6000):
+        e = rep_expr(rng)
+        if rng.random() < 0.35:
+            e = enclose(rng, e)
+        yield typeof(e)
     # (4) is_compatible
     for i in range(120 if quick else 3000):
         yield ["compat", TYPES_SEXP, rng.choice(TYPE_POOL), rng.choice(TYPE_POOL)]
@@ -341,6 +571,7 @@ def stats(payload, ans):
         t.append("arith-nodes-%d" % sum(1 for h in hs if h in ARITH))
         if has_big(e):
             t.append("huge-constant")
+        t.extend(sorted(rep_info(e)))
     return t
 
 
@@ -373,6 +604,8 @@ def leaf_value(rng, ty, mode):
     far = rng.choice([7, 1000, 10 ** 30, 10 ** 450])
     if mode == "rand":
         mode = rng.choice(["lo", "hi", "in", "in"])
+    elif mode == "corner":   # every leaf independently at one of its corners (mixed corners of a product)
+        mode = rng.choice(["lo", "hi"])
     if mode == "lo":
         v = lo if lo is not None else (hi if hi is not None else Fraction(0)) - far
     elif mode == "hi":
@@ -450,7 +683,7 @@ def oracle(payload):
     # soundness: every value the expression takes under leaf values inside the declared types is in the type
     rng = random.Random(int(hashlib.sha1(sexp.dumps(payload).encode()).hexdigest()[:8], 16))
     names = upx.free_names(e)
-    for mode in ("lo", "hi", "rand", "rand", "rand", "rand"):
+    for mode in ("lo", "hi", "corner", "corner", "rand", "rand", "rand", "rand"):
         I = interp_for(rng, names, mode)
         v = pyden.den(e, I)
         if v is not None and not member(v, t):
@@ -485,6 +718,9 @@ def shrink(payload):
         if x[0] in ("plus", "times", "and", "or") and len(kids) > 2:
             for i in range(len(kids)):
                 yield x[:off + i] + x[off + i + 1:]
+            for i in range(len(kids) - 1):          # two at once: keeps the parity of a repeated operand
+                if len(kids) > 3:
+                    yield x[:off + i] + x[off + i + 2:]
         for i, c in enumerate(kids):
             for c2 in subs(c):
                 yield x[:off + i] + [c2] + x[off + i + 1:]
@@ -501,7 +737,9 @@ MANIFEST = {
                    "non-zero constants, products with unbounded factors), Boolean/user-typed values get bool / an ancestor "
                    "user type, and Equals is accepted iff its mirror image is. The model is tied to the real TypeChecker by a "
                    "differential correspondence on the inferred type (or rejection) of expressions built in fresh "
-                   "environments, and the property itself is evaluated on the real code by an exact-Fraction oracle."),
+                   "environments (including nodes whose operands are the SAME expression: Props/C15Repeat.lean proves that the "
+                   "model never looks at the identity of operands and that an odd power of a possibly negative expression never "
+                   "gets a non-negative lower bound), and the property itself is evaluated on the real code by an exact-Fraction oracle."),
     "level_note": ("Trusted: Lean kernel; axioms propext, Classical.choice, Quot.sound; Driver/ExprSexp wire format; harness/upx.py, "
                    "pyden.py. Modelled not verified: CPython int/Fraction arithmetic and comparisons with float infinities, "
                    "TypeManager interning, DagWalker memoisation (per-node results)."),
